@@ -339,6 +339,98 @@ func jobC09(c *rt.Ctx) {
 			}
 		}
 	}
+	// look-alikes under a FOLD: for every torsion encoding T, keys J = T with the same mask xor-ed into two
+	// bytes whose positions differ by a multiple of 4 (the xor of the 32- or 64-bit words of J and T is
+	// the same), and J = T with +m in one word and -m in another (the sum of the words is the same). J - a
+	// decodable key that is not of small order, with a junk signature - sits in the first chunk, T with a
+	// signature that satisfies the cofactored equation in the second, every other entry honest: T is
+	// refused in default mode (a per-call table of screened keys that remembers a checksum of the key)
+	c.Require("fold-lookalike")
+	{
+		type la struct {
+			name string
+			j    []byte
+			t    []byte
+		}
+		var las []la
+		for ti := 0; ti < 8; ti++ {
+			for e, T := range ref.Encodings(ref.Torsion(ti)) {
+				found := 0
+				for i := 0; i < 32 && found < 6; i++ {
+					for j := i + 4; j < 32 && found < 6; j += 4 {
+						for _, m := range []byte{0x01, 0x80, 0xff, 0x10} {
+							J := append([]byte{}, T...)
+							J[i] ^= m
+							J[j] ^= m
+							if small, class := refSmallOrderPredicate(J); !small && class == "not-small" {
+								las = append(las, la{fmt.Sprintf("T%d/enc%d xor %02x at bytes %d,%d", ti, e, m, i, j), J, T})
+								found++
+								break
+							}
+						}
+					}
+				}
+				// additive: +m in word a, -m in word b (64-bit little-endian words)
+				for a := 0; a < 4 && found < 9; a++ {
+					for b := 0; b < 4 && found < 9; b++ {
+						if a == b {
+							continue
+						}
+						v := ref.LE(T)
+						m := big.NewInt(0x0102030405)
+						v.Add(v, new(big.Int).Lsh(m, uint(64*a)))
+						v.Sub(v, new(big.Int).Lsh(m, uint(64*b)))
+						if v.Sign() < 0 || v.BitLen() > 256 {
+							continue
+						}
+						J := ref.ToLE(v, 32)
+						if small, class := refSmallOrderPredicate(J); !small && class == "not-small" {
+							las = append(las, la{fmt.Sprintf("T%d/enc%d +m in word %d, -m in word %d", ti, e, a, b), J, T})
+							found++
+						}
+					}
+				}
+			}
+		}
+		c.Extra("fold_lookalikes", int64(len(las)))
+		for li, l := range las {
+			if !c.Thorough() && li%2 == 1 {
+				continue
+			}
+			if !c.Take() {
+				continue
+			}
+			c.Class("fold-lookalike")
+			c.Distinct(fmt.Sprintf("fold %d", li), true)
+			vs := vPure
+			n := 68
+			es := append([]triple{}, fillers(vs, n)...)
+			es[5] = triple{l.j, msgOf(1, vs), es[5].sig}
+			tt := triple{l.t, msgOf(1, vs), append(append([]byte{}, ptOf(big.NewInt(5), 0).Encode()...), ref.ToLE(big.NewInt(5), 32)...)}
+			es[66] = tt
+			wantT, _ := modelVerify(tt, vs, false)
+			wantJ, _ := modelVerify(es[5], vs, false)
+			all, valid, err, pv := implBatch(es, vs, false, rt.NewRng(c.Seed, fmt.Sprint("fold", li)))
+			c.Step(1)
+			bad := pv != nil || err != nil || len(valid) != n || all || wantT
+			if !bad {
+				for i, v := range valid {
+					want := true
+					if i == 5 {
+						want = wantJ
+					}
+					if i == 66 {
+						want = wantT
+					}
+					bad = bad || v != want
+				}
+			}
+			if bad {
+				c.Violation("C09 fold-lookalike", fmt.Sprintf("batch of %d (default mode) with the look-alike key %x at 5 and the small-order key %x at 66 (%s): valid[5]=%v valid[66]=%v all=%v err=%v panic=%v; the small-order key must be refused", n, l.j, l.t, l.name, len(valid) == n && valid[5], len(valid) == n && valid[66], all, err, pv),
+					map[string]interface{}{"lookalike": ref.Hex(l.j), "small_order_key": ref.Hex(l.t), "relation": l.name})
+			}
+		}
+	}
 	// scan: predicate == model for every y in [0, 2^13) x both sign bits (thorough 2^16)
 	lim := 1 << 14
 	if c.Thorough() {
